@@ -344,7 +344,7 @@ static Verdict c17_history(const Case& c) {
   const VfQuantity* R = row(nt, q); const int n = R->ncomp; const int nops = (int)c.i[2];
   std::vector<int> ops, comp; std::vector<LD> args((size_t)nops * 9), after((size_t)nops * (size_t)n);
   for (int k = 0; k < nops; k++) { ops.push_back((int)c.i[(size_t)(3 + 2 * k)]); comp.push_back((int)c.i[(size_t)(4 + 2 * k)] % n); for (int j = 0; j < 9; j++) args[(size_t)k * 9 + (size_t)j] = c.r[(size_t)(9 + k * 9 + j)]; }
-  if (R->kind == 2) for (auto& o : ops) if (o < 4 || o > 5) o = 4 + (o & 1);  // directions have no raw mutators; keep the copy/memcpy round trips
+  if (R->kind == 2) for (auto& o : ops) if (o < 4 || o > 5) o = 4 + (o & 1);   // (a direction re-normalises what it is given: only the round trips have a bit-exact model)  // directions have no raw mutators; keep the copy/memcpy round trips
   LD init[9]; R->roundtrip(c.r.data(), init);
   // derived steps (the new value is related to the value the object holds): 6 = SetValue(all components zero, signs from the step's arguments),
   // 7 = SetValue(the current value with the sign of every zero component flipped) - equal under ==, different bits: the store must still happen
@@ -354,18 +354,19 @@ static Verdict c17_history(const Case& c) {
     for (int k = 0; k < nops; k++) {
       LD* a = &args[(size_t)k * 9];
       if (ops[(size_t)k] == 6) { for (int i = 0; i < n; i++) a[i] = std::signbit(a[i]) ? -(LD)0 : (LD)0; ops[(size_t)k] = 0; }
-      else if (ops[(size_t)k] == 7) { for (int i = 0; i < n; i++) a[i] = cur[i] == 0 ? (std::signbit(cur[i]) ? (LD)0 : -(LD)0) : cur[i]; ops[(size_t)k] = (int)(comp[(size_t)k] % 2); related = true; }
-      if (ops[(size_t)k] <= 1) for (int i = 0; i < n; i++) cur[i] = round_to(nt, a[i]);
+      else if (ops[(size_t)k] == 7) { for (int i = 0; i < n; i++) a[i] = cur[i] == 0 ? (std::signbit(cur[i]) ? (LD)0 : -(LD)0) : cur[i]; static const int how[4] = {0, 1, 6, 7}; ops[(size_t)k] = how[c.i[(size_t)(4 + 2 * k)] % 4]; related = true; }
+      else if (ops[(size_t)k] == 8) ops[(size_t)k] = 6; else if (ops[(size_t)k] == 9) ops[(size_t)k] = 7;   // plain copy / move assignment of the step's arguments
+      if (ops[(size_t)k] <= 1 || ops[(size_t)k] >= 6) for (int i = 0; i < n; i++) cur[i] = round_to(nt, a[i]);
       else if (ops[(size_t)k] <= 3) cur[comp[(size_t)k]] = round_to(nt, a[0]);
     }
   }
   if (R->history(c.r.data(), ops.data(), comp.data(), args.data(), nops, after.data()) != 0) return Verdict::skip("mutator-not-available");
   LD model[9]; for (int i = 0; i < n; i++) model[i] = init[i];
-  static const char* on[] = {"SetValue(v)", "MutableValue() = v", "MutableValue().Mutable_<c>() = x", "MutableValue().Set_<c>(x)", "copy-assign/copy-construct round trip", "memcpy round trip"};
+  static const char* on[] = {"SetValue(v)", "MutableValue() = v", "MutableValue().Mutable_<c>() = x", "MutableValue().Set_<c>(x)", "copy-assign/copy-construct round trip", "memcpy round trip", "copy assignment of v", "move assignment of v"};
   std::set<int> kinds;
   for (int k = 0; k < nops; k++) {
     const LD* a = &args[(size_t)k * 9];
-    if (ops[(size_t)k] <= 1) for (int i = 0; i < n; i++) model[i] = a[i];
+    if (ops[(size_t)k] <= 1 || ops[(size_t)k] >= 6) for (int i = 0; i < n; i++) model[i] = a[i];
     else if (ops[(size_t)k] <= 3) model[comp[(size_t)k]] = a[0];
     kinds.insert(ops[(size_t)k]);
     for (int i = 0; i < n; i++) if (!same_bits(nt, after[(size_t)k * (size_t)n + (size_t)i], model[i]))
@@ -377,7 +378,7 @@ static Verdict c17_history(const Case& c) {
 static rc::Gen<Case> gen_c17_history(int inst) {
   const int q = inst % NQ(), nt = inst / NQ();
   return rc::gen::mapcat(irange(1, 12), [=](int nops) {
-    return rc::gen::map(rc::gen::tuple(rc::gen::container<std::vector<int>>((size_t)(2 * nops), irange(0, 7)), gen_reals(9 + 9 * nops, nt, -30, 30, kNeg | kZero)),
+    return rc::gen::map(rc::gen::tuple(rc::gen::container<std::vector<int>>((size_t)(2 * nops), irange(0, 9)), gen_reals(9 + 9 * nops, nt, -30, 30, kNeg | kZero)),
                         [=](const std::tuple<std::vector<int>, std::vector<LD>>& t) { Case c; c.i = {q, nt, nops}; for (int x : std::get<0>(t)) c.i.push_back(x); c.r = std::get<1>(t); return c; });
   });
 }
@@ -635,7 +636,7 @@ int main(int argc, char** argv) {
   }
   {
     Sub s; s.name = "c17.history"; s.property = "C17"; s.instances = NQ() * 3; s.n_quick = 200; s.n_thorough = 4000; s.gen = gen_c17_history; s.run = c17_history; s.instance_name = iname;
-    s.rule = "histories of 1..12 mutator steps (SetValue, MutableValue()=, Mutable_<c>()=, Set_<c>(), copy round trip, memcpy round trip; also steps whose new value is all zeros or the held value with the signs of its zeros flipped - equal under ==, different bits) against a plain array of numbers, compared bit for bit after every step; non-trivial: >= 2 kinds of step";
+    s.rule = "histories of 1..12 mutator steps (SetValue, MutableValue()=, Mutable_<c>()=, Set_<c>(), copy round trip, memcpy round trip, copy / move assignment of a new value; also steps whose new value is all zeros or the held value with the signs of its zeros flipped - equal under ==, different bits) against a plain array of numbers, compared bit for bit after every step; non-trivial: >= 2 kinds of step";
     subs.push_back(s);
   }
   {
